@@ -3,6 +3,9 @@ Model.Tools — src/aioswitcher/device/tools.py, function by function.
 -/
 import Switcher.Spec.Crc
 import Switcher.Model.Py
+import Switcher.Spec.Utf8
+import Switcher.Spec.Amps
+import Switcher.Gen.Guards
 namespace Model
 open Spec
 
@@ -16,5 +19,54 @@ def sign (hexPacket : List Char) : Py (List Char) := do
   let hexKeyCrc := hexlify (packBE32 (crc16 0x1021 binaryKey))
   let hexKeyCrcSliced := slice hexKeyCrc 6 8 ++ slice hexKeyCrc 4 6
   pure (hexPacket ++ hexPacketCrcSliced ++ hexKeyCrcSliced)
+
+/-- the generated range guard `lo op1 x op2 hi` of a function -/
+def inChain (fname : String) (x : Int) : Bool :=
+  match Gen.chainGuards.find? (·.1 == fname) with
+  | some (_, lo, op1, op2, hi) => cmpOp op1 lo x && cmpOp op2 x hi
+  | none => false
+
+/-- `minutes_to_hexadecimal_seconds` -/
+def minutesToHex (minutes : Int) : Py (List Char) := do
+  let b ← packLE32 (minutes * 60)
+  pure (hexlify b)
+
+/-- `timedelta_to_hexadecimal_seconds`; the argument is the timedelta in microseconds.
+    `total_seconds()/60`, `divmod(·, 60)` and the two `int()` amount to whole minutes × 60. -/
+def timedeltaToHex (micros : Int) : Py (List Char) :=
+  let seconds := 60 * (micros / 60000000)
+  if inChain "timedelta_to_hexadecimal_seconds" seconds then do
+    let b ← packLE32 seconds
+    pure (hexlify b)
+  else throw .valueError
+
+/-- `string_to_hexadecimale_device_name` -/
+def nameToHex (name : List Char) : Py (List Char) :=
+  let encoded := utf8Encode name
+  if 1 < name.length ∧ encoded.length < 33 then
+    pure (hexlify encoded ++ (List.replicate (32 - encoded.length) ['0', '0']).flatten)
+  else throw .valueError
+
+/-- `current_timestamp_to_hexadecimal` given the rounded clock reading -/
+def timestampToHex (now : Int) : Py (List Char) := do
+  let b ← packLE32 now
+  pure (hexlify b)
+
+/-- `set_message_length` -/
+def setMessageLength (message : List Char) : Py (List Char) := do
+  let bs ← pyUnhexlify (message ++ "00000000".toList)
+  let l ← packLE16 bs.length
+  pure ("fef0".toList ++ hexlify l ++ message.drop 8)
+
+/-- `seconds_to_iso_time`: `datetime.time(hour, minute, second).isoformat()`; hour ≥ 24 raises ValueError -/
+def secondsToIso (allSeconds : Nat) : Py (List Char) :=
+  let minutes := allSeconds / 60
+  let seconds := allSeconds % 60
+  let hours := minutes / 60
+  let minutes := minutes % 60
+  if hours < 24 then pure (dec2 hours ++ [':'] ++ dec2 minutes ++ [':'] ++ dec2 seconds) else throw .valueError
+
+/-- `watts_to_amps` in tenths of an ampere -/
+def wattsToAmpsTenths (w : Nat) : Nat := ampsTenths w
 
 end Model
